@@ -51,9 +51,15 @@ def make_evaluator(repo: Repo, fi: FuncInfo, *,
         if isinstance(n.func, ast.Name) and n.func.id not in env.vars:
             tgt = repo.resolve(module, n.func.id)
             if isinstance(tgt, FuncInfo) and depth < 6:
-                if n.keywords:
-                    raise Unsupported("keyword call of inlined function", n)
                 args = [ev.expr(env, a) for a in n.args]
+                if n.keywords:
+                    # keyword arguments are bound by the callee's signature
+                    rest = list(tgt.params[len(args):])
+                    kw = {k.arg: k.value for k in n.keywords}
+                    if None in kw or set(kw) != set(rest):
+                        raise Unsupported(
+                            "keyword call of inlined function", n)
+                    args += [ev.expr(env, kw[p_]) for p_ in rest]
                 return inline_call(repo, tgt, args, env, depth=depth + 1,
                                    loop_hook=loop_hook,
                                    extra_call=extra_call,
